@@ -51,6 +51,9 @@ def scenarios(run):
             cfg = dict(base, N=1, r=2.5, seed=sd, kpre=kpre, nsym=3, iters_limit=kpre + 2,
                        script=[('iter', kpre), ('keep',), ('other', 2), ('iter', 1), ('results',), ('other-solve',), ('solve',)], tags=['prefix'])
             out.append((cfg, 'prefix f#%d (%d concrete values): batches, sibling solver in between, poll, Solve' % (sd, kpre)))
+    for sd in seeds[:2]:
+        cfg = dict(base, N=1, r=2.5, seed=sd, kpre=2, nsym=3, script=[('iter', 3), ('results',), ('solve',)], iters_limit=5, new_holder=True, tags=['new-value-holder'])
+        out.append((cfg, 'Calculate returns a new value holder: prefix f#%d (2 concrete values) + arbitrary values' % sd))
     for sd in seeds[:3]:
         # the run ends because the accuracy criterion fires (eps symbolic): the very last trial may be the new optimum
         cfg = dict(base, N=1, r=2.5, seed=sd, kpre=2, nsym=3, script=[('solve',), ('results',)], iters_limit=5, eps='sym', tags=['stopped-by-accuracy'])
@@ -78,7 +81,7 @@ def main():
     agp.confirm(run, WANT)
     run.finish('after every iteration, inside every listener callback, in polled and returned Solutions the best trial is an evaluated point, '
                'its value is the objective there, and no evaluated trial is smaller',
-               vacuity=['recalc-pending', 'recalc-not-pending', 'new-optimum', 'optimum-kept', 'fresh', 'prefix', 'narrow-box', 'stopped-by-accuracy'])
+               vacuity=['recalc-pending', 'recalc-not-pending', 'new-optimum', 'optimum-kept', 'fresh', 'prefix', 'narrow-box', 'stopped-by-accuracy', 'new-value-holder'])
 
 
 if __name__ == '__main__':
